@@ -64,8 +64,8 @@ PENDING = set()
 NA_REASON = "check not built yet (work in progress; see DESIGN.md section 6)"
 m = {"version": 1,
      "setup_cmd": "cd /verif && python3 bin/setup.py",
-     "hooks": {"guard": "cc6502_verif", "enable": "--cfg cc6502_verif via /verif/harness/.cargo/config.toml rustflags (the harness builds /repo as a path dependency with the hooks on)",
-               "baseline_off_cmd": "cd /repo && cargo test --workspace --no-fail-fast --offline", "source_commits": ["c1a4399"], "add_only": True},
+     "hooks": {"guard": "cc6502_verif", "enable": "--cfg cc6502_verif --cfg cc6502_verif_trace via /verif/harness/.cargo/config.toml rustflags (the harness builds /repo as a path dependency with the hooks on; cc6502_verif guards H1 verif_lines and verif::preprocess, cc6502_verif_trace the per-line event log of cpp::process, which the harness drops automatically if it no longer compiles)",
+               "baseline_off_cmd": "cd /repo && cargo test --workspace --no-fail-fast --offline", "source_commits": ["c1a4399", "c761bf0"], "add_only": True},
      "engines": [{"name": "tlc", "path": "/opt/veriftools/tla/tla2tools.jar", "serves_properties": sorted(CHECKS), "kind_free_text": "TLA+ specifications under /verif/spec checked by TLC; bound to the code by replay (generator specs -> real compiler) and validation (emitted artefacts / hook traces -> oracle specs)"},
                  {"name": "vharness", "path": "/verif/harness", "serves_properties": sorted(CHECKS), "kind_free_text": "Rust batch driver on the public API of /repo (path dependency, hooks H1/H2 behind cfg cc6502_verif)"}],
      "checks": [], "not_applicable": [],
